@@ -77,8 +77,9 @@ type C struct {
 	wkMemo      map[*ssa.Function][]int
 	hookOwner   *C
 	rllMemo     map[string]int
+	rgpMemo     map[string]int
 	viaMemo     map[string]bool
-	fatMemo  map[string]bool
+	fatMemo     map[string]bool
 	wrapMemo    map[*ssa.Function][4]int
 	wrapMeth    map[*ssa.Function]string
 	fab         map[*ssa.Parameter][]*ssa.Function
